@@ -6,6 +6,7 @@ import (
 	"io/fs"
 	"math"
 	"os"
+	"path/filepath"
 	"reflect"
 	"strings"
 	"sync"
@@ -24,7 +25,7 @@ import (
 
 // C10 — no input crashes the engine: any database file, any query, any options.
 
-const c10Watchdog = 20 * time.Second
+const c10Watchdog = 60 * time.Second
 
 // errKind is a wording-independent signature of how LoadDatabase classified a failure:
 // the error type plus the first suggestion, calibrated from canonical examples at run time.
@@ -306,7 +307,7 @@ func c10Case(data []byte, q string, o database.SearchOptions) (msg string, loade
 
 func TestC10_Totality(t *testing.T) {
 	rec := stat.For("C10")
-	rec.Rule("file content: YAML entry lists with hostile scalars (NUL/ESC via escapes, !!binary, 5-16 KiB strings, numbers/bools/null/maps/sequences where strings are expected, anchors and aliases, duplicate keys, tabs, BOM, multi-document), harness-emitted well-formed lists with NUL / invalid UTF-8 fields, damaged YAML (truncation, byte flips, junk insertion), binary, odd shapes; queries incl. NUL, invalid UTF-8, 1000-byte strings; options incl. MaxInt/MinInt limits and caps, NaN/Inf boosts. Each case: write file, LoadDatabase, and on success every search entry point, suggestions and the recovery search, under a 20 s watchdog. Oracle: no panic, no hang; missing => not-found; undecodable (independent yaml decode fails) => parse error (wording-independent error signature calibrated at run time); decodable => loads with equal entries. Non-trivial = the file loaded and searches ran, or it was rejected as a parse error.")
+	rec.Rule("file content: YAML entry lists with hostile scalars (NUL/ESC via escapes, !!binary, 5-16 KiB strings, numbers/bools/null/maps/sequences where strings are expected, anchors and aliases, duplicate keys, tabs, BOM, multi-document), harness-emitted well-formed lists with NUL / invalid UTF-8 fields, damaged YAML (truncation, byte flips, junk insertion), binary, odd shapes; queries incl. NUL, invalid UTF-8, 1000-byte strings; options incl. MaxInt/MinInt limits and caps, NaN/Inf boosts. Each case: write file, LoadDatabase, and on success every search entry point, suggestions and the recovery search, under a 60 s watchdog. Oracle: no panic, no hang; missing => not-found; undecodable (independent yaml decode fails) => parse error (wording-independent error signature calibrated at run time); decodable => loads with equal entries. Non-trivial = the file loaded and searches ran, or it was rejected as a parse error.")
 	rec.RequireShare("loaded", 0.35)
 	rec.RequireShare("rejected", 0.15)
 	rapid.Check(t, func(t *rapid.T) {
@@ -341,7 +342,13 @@ func TestC10_Missing(t *testing.T) {
 	rec := stat.For("C10")
 	dir := mkdirWork("c10m-")
 	defer os.RemoveAll(dir)
-	for i, p := range []string{dir + "/nope.yml", dir + "/a/b/c.yml", dir + "/" + strings.Repeat("x", 200) + ".yml", dir + "/K.yml"} {
+	// path names that quote the wording of other error classes: the class follows the cause, not the text
+	for _, d := range []string{"unmarshal-fixtures", "yaml: v2", "yaml:", "permission denied", "is a directory", "cannot unmarshal !!str", "line 1: did not find expected key"} {
+		os.MkdirAll(filepath.Join(dir, d), 0o755)
+	}
+	for i, p := range []string{dir + "/nope.yml", dir + "/a/b/c.yml", dir + "/" + strings.Repeat("x", 200) + ".yml", dir + "/K.yml",
+		dir + "/unmarshal-fixtures/db.yml", dir + "/yaml: v2/db.yml", dir + "/yaml:/commands.yml", dir + "/permission denied/db.yml", dir + "/is a directory/x.yml",
+		dir + "/cannot unmarshal !!str/db.yml", dir + "/line 1: did not find expected key/db.yml", dir + "/yaml: unmarshal errors.yml", dir + "/nope/yaml: line 3.yml"} {
 		_, err := database.LoadDatabase(p)
 		if err == nil || !errors.Is(err, fs.ErrNotExist) || errKind(err) != c10KindMissing {
 			t.Fatalf("missing file %q reported as %v (kind %q), want not-found", p, err, errKind(err))
